@@ -35,6 +35,7 @@ type PoolCase struct {
 	Lean       bool   `json:"lean,omitempty"` // tasks only do plain (non-atomic) writes; no harness synchronisation
 	PingPong   int    `json:"ping_pong,omitempty"`  // > 0: this many tiny tasks, each submitted the moment the previous one signals its completion (the submitter meets a worker that is just going idle), with a swept delay of a few spin steps
 	OpenPools  int    `json:"open_pools,omitempty"` // this many other 16-worker pools are created, used once and kept open while the case runs
+	NestedKids int `json:"nested_kids,omitempty"` // follow-up tasks per task (default 1); Tasks*NestedKids <= 2*workers: they fit the queue exactly
 	NestedSubmit bool `json:"nested_submit,omitempty"` // gated, Tasks <= workers: every task submits one follow-up task to its own pool (while the waiter is inside Wait) before it finishes
 }
 
@@ -146,8 +147,12 @@ func runPoolCase(cs *PoolCase) *PoolObs {
 	for round := 0; round < rounds; round++ {
 		pre := cs.Tasks // submitted before Wait
 		n := cs.Tasks + cs.LateTasks
+		kids := cs.NestedKids
+		if kids < 1 {
+			kids = 1
+		}
 		if cs.NestedSubmit {
-			n = 2 * cs.Tasks
+			n = (1 + kids) * cs.Tasks
 		}
 		lateGo := make(chan struct{})
 		lateDone := make(chan struct{})
@@ -182,7 +187,9 @@ func runPoolCase(cs *PoolCase) *PoolObs {
 					mu.Unlock()
 					<-ch
 					if cs.NestedSubmit && id < pre {
-						pool.Submit(task(pre + id)) // the queue is empty (Tasks <= workers): this cannot block on a full queue
+						for k := 0; k < kids; k++ {
+							pool.Submit(task(pre + id*kids + k)) // at most 2*workers follow-ups in all: they fit the queue
+						}
 					}
 				} else if cs.SleepUs > 0 {
 					prngMu.Lock()
@@ -777,6 +784,18 @@ func runC08(c *Cfg) {
 		cases = append(cases, &BatchCase{Family: "sequential-order", N: n, C: 0, Budget: 2, Items: it, Shape: "results", Build: "builder", ExecStyle: "any", Gated: true, Policy: "first"})
 		cases = append(cases, &BatchCase{Family: "sequential-order", N: n, C: 0, Budget: 1, Items: it, Shape: "ints", Build: "compose", ExecStyle: "result", SleepUs: 5})
 	}
+	// sequential batches with retries and a wait: an item is finished (all its attempts, its fallback) before the next one starts
+	for _, n := range []int{3, 6} {
+		for _, budget := range []int{2, 3} {
+			it := make([]ItemScript, n)
+			for j := range it {
+				it[j].K = 1 + (j+1)%2*budget // every other item fails all its attempts
+			}
+			it[0].K = 2
+			cases = append(cases, &BatchCase{Family: "sequential-order-with-retry-wait", N: n, C: 0, Budget: budget, FB: n == 6, Items: it, Shape: map[bool]string{true: "any", false: "results"}[n == 6], Build: map[bool]string{true: "compose", false: "builder"}[n == 6], ExecStyle: "any", WaitMs: 2, SleepUs: 0})
+			cases = append(cases, &BatchCase{Family: "sequential-order-with-retry-wait", N: n, C: 0, Budget: budget, Items: it, Shape: "results", Build: "options", ExecStyle: "result", WaitMs: 1, Gated: true, Policy: "first"})
+		}
+	}
 	// the same node object run before with fewer items than workers: the limit must still be fully usable afterwards
 	for _, cc := range []int{2, 3, 5, 8} {
 		for _, pn := range []int{1, cc - 1} {
@@ -1005,6 +1024,9 @@ func runC12(c *Cfg) {
 		for _, pre := range []int{1, w} {
 			pcs = append(pcs, &PoolCase{Family: "nested-submit-during-wait", Workers: w, Tasks: pre, Submitters: 1, Rounds: 2, Gated: true, Policy: []string{"first", "last", "random"}[(w+pre)%3], PSeed: uint64(w*7 + pre), NestedSubmit: true})
 		}
+	}
+	for _, w := range []int{2, 9, 12, 16} { // two follow-ups per task: 2*workers queued, exactly what the queue holds
+		pcs = append(pcs, &PoolCase{Family: "nested-submit-filling-the-queue", Workers: w, Tasks: w, Submitters: 1, Rounds: 1, Gated: true, Policy: "first", NestedSubmit: true, NestedKids: 2})
 	}
 	// many other pools alive at the same time (17 x 16 workers): this pool behaves as if it were alone
 	for _, w := range []int{1, 4, 16} {
